@@ -47,7 +47,7 @@ PROPS = {
         "claim": 'Decides GC7 completely: the tag write in add() is guarded by the pre-state tag being 0, the reset of edges, data and read status co-occurs with it on exactly the same paths, and no other path of add() writes anything; add() contains no always-compiled assertion about the vacant slot other than the documented preconditions (and "holds no unread datum", which counter exactness gives), so re-creating a collected id completes. CL1 (a clone has every slot of the vertex table of the original) is run as a premise: the statement holds on clones as well.',
         "note": 'Trusted: rustc front end + engine; micromap::Map::new / Hex::empty produce blank values (read).',
         "technique": 'MIR guard + co-occurrence rule on add()',
-        "rules": [("GC7", functools.partial(G.gc7, part="abc")), ("CL1/CL4", NX.cl1)],
+        "rules": [("GC7", functools.partial(G.gc7, part="abc")), ("CL1/CL4", NX.cl1), ("GC2", G.gc2)],
         "explanation": "add(): tag := 1 only under pre-state tag ∈ {0}, with edges/data/read status reset on the same paths; "
                        "no effect on a present vertex.",
         "trusted": [RUSTC, CONTAINERS],
@@ -113,7 +113,7 @@ PROPS = {
         "claim": "Decides NX1–NX5, which give the whole statement with exhaustion as a precondition: the allocator position is written only in next_id(); the returned id is the key of a vertex-store item selected by a predicate true only for tag ∈ {0} and key ≥ the pre-state position; every path sets position := id + 1 unless it is already larger; clone copies the position (CL1); merge's descent adds the fresh id on the same paths and a script allocates only as the default of vars.entry(name).",
         "note": "Trusted: rustc front end + engine; emap iteration yields exactly the Some slots with their keys. Exhaustion (no absent id at or above the position) is a precondition.",
         "technique": "MIR who-may-write + closure-predicate summary + must-pass-through rules",
-        "rules": [("NX1", NX.nx1), ("NX2/NX3", NX.nx23), ("NX4", NX.cl1), ("NX5", NX.nx5)],
+        "rules": [("NX1", NX.nx1), ("NX2/NX3", NX.nx23), ("NX4", NX.cl1), ("NX5", NX.nx5), ("SC5", SC.sc5)],
         "explanation": "NX1 who writes next_v, NX2 predicate (absent ∧ ≥ pre-state position), NX3 position := id+1, NX4 clone copies the position, NX5 internal callers.",
         "trusted": [RUSTC, CONTAINERS],
         "assumptions": ["at least one absent id at or above the allocator position remains"],
@@ -131,7 +131,7 @@ PROPS = {
         "claim": "Decides the per-field and writer/reader clauses SZ1–SZ5, each a necessary condition of the round trip: the serialized-field inventory read from the derived impls' MIR is every field of Sodg and Vertex and every variant/payload of Hex, Label, Persistence, written unconditionally from the field itself and restored from the same position, the only omission being Sodg::next_v (omitted on both sides, rebuilt by Default); the ten impls are derived; save() serialises self whole and writes exactly those bytes to the path; load() decodes the whole file and returns that value unmodified, and produces no Err on a path on which the decode succeeded (an image save() wrote is not rejected afterwards); both use the same bincode configuration. Does not decide equality of behaviour under every continuation.",
         "note": "Trusted: rustc front end + engine; serde derive output semantics; bincode 1.3.3; the containers' Serialize/Deserialize pairs (read). Behavioural equivalence under all continuations is not decided.",
         "technique": "MIR inventory of derive-expanded serde impls + writer/reader agreement + provenance in save/load",
-        "rules": [("SZ1", SZ.sz1), ("SZ2", SZ.sz2), ("SZ3-5", SZ.sz345)],
+        "rules": [("SZ1", SZ.sz1), ("SZ2", SZ.sz2), ("SZ3-5", SZ.sz345), ("GC9", G.gc9)],
         "explanation": "SZ1 field/variant inventory on both sides, SZ2 derived impls (floor 10), SZ3 save, SZ4 load, SZ5 codec pair.",
         "trusted": [RUSTC, CONTAINERS, "serde derive, bincode 1.3.3"],
         "assumptions": ["merges restricted to trees (no emptied slot, DESIGN §4)"],
@@ -159,7 +159,7 @@ PROPS = {
         "note": "Trusted: rustc front end + engine; micromap::Map::insert replaces the value of an equal key in place; derived Clone of Hex copies the bytes.",
         "technique": "MIR provenance + guard + who-may-write (frame) rules",
         "rules": [("RW1", RW.rw1), ("RW2", RW.rw2), ("RW3", RW.rw3), ("RW4/RW5", RW.rw45), ("RW6", RW.rw6), ("RW7", LB.lb7),
-                  ("GC7", functools.partial(G.gc7, part="ab")), ("GC8", G.gc8), ("GC4", G.gc4)],
+                  ("GC7", functools.partial(G.gc7, part="ab")), ("GC8", G.gc8), ("GC4", G.gc4), ("MG3-6", MG.mg3456)],
         "explanation": "RW1 bind's insert, RW2 kid, RW3 kids, RW4 put, RW5 data's three arms, RW6 who-may-write, RW7 derived Label traits, GC7b blanking, GC8 frame.",
         "trusted": [RUSTC, CONTAINERS],
         "assumptions": ["capacity limits and documented preconditions"],
@@ -170,7 +170,7 @@ PROPS = {
         "technique": "MIR purity (read-only parameter) + who-may-call + guard/provenance rules on the descent",
         "rules": [("MG1", MG.mg1), ("MG2", MG.mg2), ("MG3-6", MG.mg3456), ("MG7/MG8", MG.mg78),
                   # "afterwards g keeps obeying C01-C03": the rules for the three mutators merge() acts through are premises
-                  ("GC4", G.gc4), ("GC5", G.gc5), ("GC7", functools.partial(G.gc7, part="ab")), ("RW1", RW.rw1), ("RW4/RW5", RW.rw45)],
+                  ("GC4", G.gc4), ("GC5", G.gc5), ("GC7", functools.partial(G.gc7, part="ab")), ("RW1", RW.rw1), ("RW4/RW5", RW.rw45), ("NX2/NX3", NX.nx23)],
         "explanation": "MG1 read-only right graph, MG2 additive through the API only, MG3 bind guard, MG4 creation shape, MG5 data copy, MG6 descent/marking, MG7/MG8 Ok/Err exactly on the completeness test.",
         "trusted": [RUSTC, CONTAINERS],
         "assumptions": ["both graphs are trees of present vertices"],
@@ -181,7 +181,9 @@ PROPS = {
         "technique": "MIR guard rule on the success return + provenance of the error text",
         "rules": [("MG7/MG8", MG.mg78), ("MG6", MG.mg3456),
                   # the completeness count relies on add() handing out blank vertices (a re-added id with stale edges inflates the map)
-                  ("GC7", functools.partial(G.gc7, part="ab"))],
+                  ("GC7", functools.partial(G.gc7, part="ab")),
+                  # ... and on keys()/len() of the right graph counting exactly its present vertices
+                  ("XP1", L.xp1)],
         "explanation": "MG7 Ok guarded by ?-success ∧ |mapped| == |right|, MG8 Err names the difference, sorted.",
         "trusted": [RUSTC],
         "assumptions": [],
@@ -190,7 +192,7 @@ PROPS = {
         "claim": "Decides SL1–SL6: every insertion into the work set inside the closure loop is control-dependent on the visited set not containing that vertex and the vertex is marked on enqueue or dequeue (each vertex processed at most once: termination on cycles; roles found structurally); a vertex is enqueued only under p(from,to,label) true with exactly the scanned edge's components, every edge of a visited vertex being scanned and the scan loop never left by break or an early success return; the rebuild calls add/bind only, bind(v1,v2,k) with exactly (outer key, inner target, inner label) of the edge iterated, control-dependent on nothing but membership of both endpoints in the visited set; nothing is written through &self; the slice has the source's capacity; slice() passes the constantly-true predicate. Does not decide set equality with graph reachability as such. RW1, GC5 and GC7 (contracts of bind() and add(), with which the slice is rebuilt) are run as premises.",
         "note": "Trusted: rustc front end + engine; std HashSet. Soundness of each copy, completeness of the scan and termination are decided; equality of the kept set with the reachable set follows by the standard work-list argument (hand).",
         "technique": "MIR visited-set discipline (guard + co-occurrence) + provenance of rebuild arguments + purity",
-        "rules": [("SL1/SL2", SL.sl12), ("SL3-6", SL.sl3456),
+        "rules": [("SL1/SL2", SL.sl12), ("SL3-6", SL.sl3456), ("SL7", SL.sl7),
                   # the slice is rebuilt with add() and bind(): their own contracts are premises (edge recorded, vertex blank, joins
                   # that keep the member lists within the limits)
                   ("RW1", RW.rw1), ("GC5", G.gc5), ("GC7", functools.partial(G.gc7, part="ab"))],
@@ -211,7 +213,7 @@ PROPS = {
         "claim": "Decides SC1–SC4: in the per-command function the three graph calls are control-dependent on the command name (capture 1 of the command text) being equal to ADD / BIND / PUT and take add(id(arg0)), bind(id(arg0), id(arg1), Label::from_str(arg2)), put(id(arg0), data(arg1)) on the given graph, with no other graph mutation in the closure of deploy_to; one next_id per variable name (NX5); the returned count is incremented exactly once on the success edge of each deployed command and commands run in split(';') order through order-preserving adaptors only; no panicking operation on script-derived data outside an audited table (Regex::new on literals, captures that always participate, hex-pair parsing dominated by the hex-pairs regex). Does not decide the grammar itself (what the regular expressions accept: comment stripping, whitespace, hex formatting). SC5: Script::from_str stores exactly the text it is given, and an identifier loses exactly its one sigil before it reaches the number parser or the variable table.",
         "note": "Trusted: rustc front end + engine; regex crate semantics for the audited exceptions. The grammar (language accepted by the four regular expressions) is not code shape and is not decided; e.g. a trailing comment without newline is not stripped (DESIGN §4).",
         "technique": "MIR dispatch-table agreement (guard + argument provenance) + error-discipline rule",
-        "rules": [("SC1", SC.sc1), ("SC2", NX.nx5), ("SC3", SC.sc3), ("SC4", SC.sc4), ("SC5", SC.sc5)],
+        "rules": [("SC1", SC.sc1), ("SC2", NX.nx5), ("SC3", SC.sc3), ("SC4", SC.sc4), ("SC5", SC.sc5), ("LB2", LB.lb2)],
         "explanation": "SC1 dispatch table (floor 3), SC2 variables, SC3 count and order, SC4 panicking operations vs audited table (floor 8).",
         "trusted": [RUSTC, "regex crate"],
         "assumptions": ["programs within the capacity limits and preconditions"],
